@@ -19,9 +19,19 @@ func (e edit) String() string { return fmt.Sprintf("%s@%d=%d", e.Kind, e.Off, e.
 //     neighbour); one byte appended (0x00, 0x01, 0xff).
 //
 // fn returns false to stop.
-func byteEdits(orig []byte, allValues bool, fn func(e edit, mutated []byte) bool) {
+//
+// The enumeration can be split over nsh shards (edit number i belongs to shard i mod nsh) so that the
+// expensive artefacts (RSA) are spread over several replayable units.
+func byteEdits(orig []byte, allValues bool, sh, nsh int, fn func(e edit, mutated []byte) bool) {
 	n := len(orig)
-	mut := func(e edit, build func() []byte) bool { return fn(e, build()) }
+	idx := 0
+	mut := func(e edit, build func() []byte) bool {
+		idx++
+		if nsh > 1 && idx%nsh != sh {
+			return true
+		}
+		return fn(e, build())
+	}
 	for i := 0; i < n; i++ {
 		o := orig[i]
 		var vals []byte
